@@ -128,8 +128,9 @@ def welch(A, B):
 
 def templates(X, v, classes):
     """Template building reference.  X (n, L), v (n,) class values, classes: declared class list (order = row order).
-    -> (templates (K, L) float64, pooled covariance (L, L) float64, ok) ; ok False when some declared class has fewer
-    than two building traces (the unbiased covariance of the statement is undefined there)."""
+    -> (templates (K, L) float64, pooled covariance (L, L) float64, ok) ; ok False when some declared class has exactly
+    one building trace (the unbiased covariance of the statement is undefined there; the code substitutes a count of 2).
+    A declared class with NO building trace contributes nothing and still counts in the divisor (number of declared classes)."""
     X = np.asarray(X); v = np.asarray(v).reshape(-1)
     L = X.shape[1]; K = len(classes)
     T = [[F(0)] * L for _ in range(K)]
@@ -139,10 +140,11 @@ def templates(X, v, classes):
     for i, c in enumerate(classes):
         rows = [[_fr(t) for t in X[r]] for r in range(X.shape[0]) if int(v[r]) == int(c)]
         n = len(rows)
+        if n == 0:
+            continue        # a declared class without building traces adds nothing to the sum and still counts in the divisor K ("average over declared classes")
         if n < 2:
             ok = False
-            if n == 1:
-                T[i] = rows[0]
+            T[i] = rows[0]
             continue
         mu = [sum(r[a] for r in rows) / n for a in range(L)]
         T[i] = mu
